@@ -29,7 +29,7 @@ import core
 from ser import Ser, Ids, Unsupported, rat
 
 LEAN_MODULE = "Optyx.Props.C16"
-EXTRA_MODULES = ["Optyx.Props.PinsC16", "Optyx.Props.VarsTie"]   # transcription anchors (harness/source_pins.py)
+EXTRA_MODULES = ["Optyx.Props.PinsC16", "Optyx.Props.VarsTie", "Optyx.Props.VarsStepTie"]   # transcription anchors (harness/source_pins.py)
 THEOREMS = [
     "Optyx.Props.C16.problemVariables_spec",
     "Optyx.Props.C16.generalVariables_spec",
@@ -48,6 +48,9 @@ THEOREMS = [
     "Optyx.Props.VarsTie.shortcutSource_eq",
     "Optyx.Props.VarsTie.generalPath_text",
     "Optyx.Props.VarsTie.svsRun_eq",
+    "Optyx.Props.VarsStepTie.exprVars_step",
+    "Optyx.Props.VarsStepTie.step_unique",
+    "Optyx.Props.VarsStepTie.matrixVariableGetVariables_text",
     "Optyx.Props.PinsC16.anchors",
 ]
 ASSUMPTIONS = [
